@@ -750,6 +750,14 @@ def index_interior(v, mode, pos):
     return v
 
 
+# names that are NOT features of dclab (fixed here, independent of the tree
+# under test), among them near-misses of the valid patterns ml_score_???,
+# userdef0..9, basinmap0..9, fl1..3_max
+UNKNOWN_NAMES = ("peter", "area_xyz", "userdef10", "ml_score_abcd",
+                 "ml_score_abc_old", "ml_score_ab", "ml_score_ABC",
+                 "basinmap10", "fl4_max")
+
+
 def corruption_menu(h5, info):
     """Applicable corruption kinds for this file: list of (kind, params)."""
     import dclab.definitions as dfn
@@ -811,8 +819,7 @@ def corruption_menu(h5, info):
                 d = int(at["imaging:roi size x"]) - int(
                     at["imaging:roi size y"])
                 menu.append(("img_add", dict(f=k, dh=d, dw=-d)))
-    menu += [("unknown", dict(name=nm)) for nm in
-             ("peter", "def", "area_xyz", "userdef10")]
+    menu += [("unknown", dict(name=nm)) for nm in ("def",) + UNKNOWN_NAMES]
     tab = info["tab"]
     for i, (sec, key) in enumerate(tab[:17]):
         if "%s:%s" % (sec, key) in at:
@@ -1125,10 +1132,10 @@ def _apply_corruption(h5, kind, p, info, scratch):
             return []
         nn = int(n) if n is not None else 3
         ev.create_dataset(p["name"], data=np.arange(nn, dtype=float))
-        import dclab.definitions as dfn
-        if p["name"] == "def" or dfn.feature_exists(p["name"]):
-            return []
-        return [("anycat", 5)]
+        if p["name"] in UNKNOWN_NAMES:
+            # not a feature name of dclab, whatever the tree under test says
+            return [("anycat", 5)]
+        return []
     if kind == "del_key":
         name = "%s:%s" % (p["sec"], p["key"])
         if name not in at:
